@@ -62,7 +62,7 @@ def lower_unit(unit, workdir):
             ds = cxx2c.find_functions(docs, fn)
             if len(ds) != 1:
                 raise Unsupported('function %s: %d definitions found in %s' % (fn, len(ds), unit.SRC))
-            head, lines = prof.func(ds[0], is_method=bool(prof.CLS))
+            head, lines = prof.func(ds[0], is_method=prof.IS_METHOD)
             protos.append(head + ';')
             bodies.append([head] + lines)
         return dict(protos=protos, bodies=bodies, profile=prof)
@@ -81,7 +81,10 @@ def splice(unit, low, harnesses, out_c, mode='proof'):
         def rep(m):
             lit = m.group(1)
             return str(lits.index(lit)) if lit in lits else '(-1000 - %d)' % (len(lit))
-        return re.sub(r'LIT\(("(?:[^"\\]|\\.)*")\)', rep, text)
+        text = re.sub(r'(?<![A-Z_])LIT\(("(?:[^"\\]|\\.)*")\)', rep, text)
+        if hasattr(prof, 'subst'):
+            text = prof.subst(text)
+        return text
 
     lines = ['#include "%s"' % unit.SHIM]
     if hasattr(prof, 'file_prelude'):
@@ -96,7 +99,9 @@ def splice(unit, low, harnesses, out_c, mode='proof'):
         if fn not in prof.fn_loops:
             raise Break('CONTRACT BINDING BREAK (%s): function %s is not lowered' % (unit.NAME, fn))
         nl = prof.fn_loops[fn]
-        want = spec.get('loops', {})
+        want = dict(spec.get('loops', {}))
+        for k in spec.get('unwound_loops', []):
+            want[k] = None      # deliberately left to complete unwinding (width-bounded loop)
         if want and (max(want) >= nl or len(want) != nl):
             breaks[fn] = 'CONTRACT BINDING BREAK (%s): %s has %d loop(s), sidecar binds %s' % (unit.NAME, fn, nl, sorted(want))
         elif not want and nl and not spec.get('loop_free_ok'):
@@ -263,6 +268,10 @@ def run_harness(unit, h, src_c, workdir, label_by_line, mode='proof', solver=Non
         cb = ['cbmc', base + '.b.gb', '--trace'] + BOUNDED_CHECKS + ['--unwind', str(h.get('unwind', 6)), '--unwinding-assertions']
     else:
         cb = ['cbmc', base + '.b.gb', '--trace'] + CBMC_CHECKS + list(h.get('cbmc_args', []))
+        if h.get('unwindset'):
+            # loops the sidecar marks `unwound_loops` have a small constant trip count: they are
+            # unwound completely (the unwinding assertion proves the bound)
+            cb += ['--unwindset', ','.join(h['unwindset']), '--unwinding-assertions']
     for c in h.get('no_checks', []):
         if c in cb:
             cb.remove(c)
